@@ -4,6 +4,7 @@
 import OrbProofs.C07Lemmas
 import OrbProofs.C08Ring
 import OrbProofs.C08Counter
+import OrbProofs.C08Chain
 import Mathlib.Tactic.NormNum
 import Mathlib.Algebra.Order.Field.Rat
 
@@ -516,10 +517,10 @@ theorem ring_vertices_in_box' (box : Bound α) (hb : BoxOK box) (inp out : List 
   C08.ring_vertices_in_box' box hb inp out h
 
 /- FALSE of the model: see `C08.ring_vertices_on_input_false` in OrbProofs/C08Counter.lean (a triangle
-   containing a box corner: Sutherland–Hodgman emits the corner).  Left `sorry`, not weakened. -/
-theorem ring_vertices_on_input' (box : Bound α) (hb : BoxOK box) (inp out : List (Pt α)) (h : ring box inp = some out) :
-    ∀ v ∈ out, v ∈ inp ∨ ∃ a ∈ inp, ∃ b ∈ inp, OnSeg a b v := by
-  sorry
+   containing a box corner: Sutherland–Hodgman emits the corner).  Left `sorry`, not weakened.
+   True replacements, proved in OrbProofs/C08Chain.lean: `C08.ring_vertices_on_chain` (every output vertex
+   lies on a segment of the implicitly closed input chain OR is a box corner) and
+   `C08.ring_vertices_in_hull` (every output vertex is in the convex hull of the input vertices). -/
 
 theorem ring_inside_id' (box : Bound α) (inp : List (Pt α)) (hin : ∀ v ∈ inp, InBox box v) :
     ring box inp = some inp :=
